@@ -66,4 +66,42 @@ theorem buildNames_ok {role : Role} {req : Req} {nm : Names} (h : buildNames rol
             subst h
             exact ⟨by simpa [namesRefused] using hd, by simpa [namesRefused] using hem⟩
 
+/-- what an accepted IP SAN list satisfies -/
+theorem buildIPs_ok {role : Role} {req : Req} {ips : List String} (h : buildIPs role req = .ok ips) :
+    (ips ≠ [] → role.allowIPSANs = true) ∧
+    (role.allowedIPCIDRs ≠ [] → ∀ ip ∈ ips, ipAllowed role.allowedIPCIDRs ip = true) := by
+  unfold buildIPs at h
+  simp only at h
+  split at h
+  · contradiction
+  · rename_i ips' _
+    split at h
+    · contradiction
+    · rename_i hA
+      split at h
+      · contradiction
+      · rename_i hB
+        simp only [Except.ok.injEq] at h
+        subst h
+        constructor
+        · intro hne
+          cases hi : role.allowIPSANs with
+          | true => rfl
+          | false =>
+            exfalso; apply hA
+            cases ips' with
+            | nil => exact absurd rfl hne
+            | cons a t => simp [hi]
+        · intro hc ip hip
+          cases hall : ipAllowed role.allowedIPCIDRs ip with
+          | true => rfl
+          | false =>
+            exfalso; apply hB
+            have hne : role.allowedIPCIDRs.isEmpty = false := by
+              cases hl : role.allowedIPCIDRs with
+              | nil => exact absurd hl hc
+              | cons _ _ => rfl
+            simp only [hne, Bool.not_false, Bool.true_and, List.any_eq_true, Bool.not_eq_true']
+            exact ⟨ip, hip, hall⟩
+
 end Obao.PKIIssue
